@@ -432,6 +432,15 @@ class Interp:
                 self.exec_block(s.body, env)
             else:
                 self.bad(s, 'with statement over a value that is not a context manager model')
+        elif isinstance(s, ast.Match):
+            subject = self.eval(s.subject, env)
+            for case in s.cases:
+                binds = {}
+                if self.match_pattern(case.pattern, subject, binds, env, s):
+                    env.update(binds)
+                    if case.guard is None or self.truth(self.eval(case.guard, env), case.guard):
+                        self.exec_block(case.body, env)
+                        break
         elif isinstance(s, ast.While):
             n = 0
             while self.truth(self.eval(s.test, env), s.test):
@@ -488,6 +497,8 @@ class Interp:
             base = self.eval(t.value, env)
             if not isinstance(base, AObj):
                 self.bad(t, 'attribute store outside the subset')
+            if getattr(base, 'frozen', False):
+                raise RaiseSig('AttributeError', (f"can't set attribute {t.attr}",), t)
             base.attrs[t.attr] = val
         elif isinstance(t, (ast.Tuple, ast.List)):
             items = self.iterate(val, t)
@@ -514,6 +525,14 @@ class Interp:
             return bool(v.l)
         if isinstance(v, (AMatch, ALine, ARegex, ModuleFunc, APart, AIter, ACount, ALazy, AGen, CMatch)):
             return True
+        if isinstance(v, AObj):
+            if getattr(v, 'is_tuple', False):
+                return len(v.fields) > 0
+            home = self.class_home(v.cls)
+            if home is not None and (home[0].funcs.get(f'{v.cls}.__bool__') or home[0].funcs.get(f'{v.cls}.__len__')):
+                r = self.call_object_method(v, '__bool__' if home[0].funcs.get(f'{v.cls}.__bool__') else '__len__', [], node)
+                return bool(r) if isinstance(r, (bool, int)) else self.truth(r, node)
+            return True
         if isinstance(v, tuple) and v and v[0] in ('bound', 'builtin', 'extern', 'hostattr', 'partial', 'closure', 'class', 'closure-def', 'cmpkey', 'itemgetter'):
             return True
         if isinstance(v, Sym):
@@ -524,6 +543,8 @@ class Interp:
         raise Unrecognised(self.rule, f'truthiness of {v!r} is not decidable' + (f' at {norm(node)[:60]}' if node is not None else ''), None)
 
     def iterate(self, v, node):
+        if isinstance(v, AObj) and getattr(v, 'is_tuple', False):
+            return [v.attrs[f] for f in v.fields]
         if isinstance(v, AGen):
             return list(self.py_iter(v, node))
         if isinstance(v, ALazy):
@@ -673,8 +694,11 @@ class Interp:
                             pass
                 return ('extern', modname, orig)
             if e.id in ('len', 'next', 'iter', 'reversed', 'list', 'enumerate', 'isinstance', 'str', 'int', 'float', 'dict', 'tuple', 'range', 'bool', 'min', 'max', 'complex',
-                        'ord', 'chr', 'callable', 'object', 'type', 'getattr', 'hasattr', 'super'):
+                        'ord', 'chr', 'callable', 'object', 'type', 'getattr', 'hasattr', 'super', 'issubclass', 'repr', 'divmod', 'round', 'pow'):
                 return ('builtin', e.id)
+            if e.id in ('Exception', 'BaseException', 'ValueError', 'TypeError', 'KeyError', 'IndexError', 'ArithmeticError', 'ZeroDivisionError', 'OverflowError', 'AttributeError',
+                        'LookupError', 'RuntimeError', 'StopIteration', 'RecursionError', 'OSError', 'NotImplementedError', 'AssertionError', 'UnicodeError'):
+                return ('class', e.id)
             self.bad(e, f'unknown name {e.id}')
         if isinstance(e, ast.Dict):
             out = ADict()
@@ -728,6 +752,10 @@ class Interp:
             if not symbolic:
                 return ''.join(parts)
             return Sym('fstr', tuple(parts))
+        if isinstance(e, ast.NamedExpr):
+            val = self.eval(e.value, env)
+            self.assign(e.target, val, env)
+            return val
         if isinstance(e, ast.IfExp):
             return self.eval(e.body if self.truth(self.eval(e.test, env), e.test) else e.orelse, env)
         if isinstance(e, ast.BoolOp):
@@ -815,6 +843,11 @@ class Interp:
                 if key not in base:
                     raise RaiseSig('KeyError', (key,), e)
                 return base[key]
+            if isinstance(base, AObj) and getattr(base, 'is_tuple', False) and isinstance(key, int) and not isinstance(key, bool):
+                try:
+                    return [base.attrs[f] for f in base.fields][key]
+                except IndexError:
+                    raise RaiseSig('IndexError', (key,), e)
             if isinstance(base, AMatch) and isinstance(key, (str, int)):
                 return self.group(base, key, e)
             if isinstance(base, CMatch) and isinstance(key, (str, int)):
@@ -904,6 +937,77 @@ class Interp:
                 if is_subclass(cls, cand) or is_subclass(cls.rsplit('.', 1)[-1], cand):
                     return True
         return False
+
+    def match_pattern(self, pat, v, binds, env, at):
+        """structural pattern matching (PEP 634) of an abstract value; captures go to `binds`"""
+        if isinstance(pat, ast.MatchAs):
+            if pat.pattern is not None and not self.match_pattern(pat.pattern, v, binds, env, at):
+                return False
+            if pat.name is not None:
+                binds[pat.name] = v
+            return True
+        if isinstance(pat, ast.MatchOr):
+            for alt in pat.patterns:
+                b2 = {}
+                if self.match_pattern(alt, v, b2, env, at):
+                    binds.update(b2)
+                    return True
+            return False
+        if isinstance(pat, ast.MatchValue):
+            return self.compare(ast.Eq(), v, self.eval(pat.value, env), at)
+        if isinstance(pat, ast.MatchSingleton):
+            return (v is None and pat.value is None) or (isinstance(v, bool) and v is pat.value)
+        if isinstance(pat, ast.MatchClass):
+            if pat.kwd_attrs or len(pat.patterns) > 1:
+                self.bad(at, 'class pattern with attribute sub-patterns')
+            fake = ast.Call(func=ast.Name(id='isinstance', ctx=ast.Load()), args=[ast.Constant(value=None), pat.cls], keywords=[])
+            ast.copy_location(fake, at)
+            ok = self.call_builtin('isinstance', [v, self.eval(pat.cls, env)], fake)
+            if not ok:
+                return False
+            if pat.patterns:
+                # builtin types (str(), int(), ...) match the subject itself with their single positional sub-pattern
+                if not (isinstance(pat.cls, ast.Name) and pat.cls.id in ('str', 'int', 'float', 'bool', 'list', 'dict', 'tuple', 'bytes', 'set', 'frozenset')):
+                    self.bad(at, 'class pattern with a positional sub-pattern')
+                return self.match_pattern(pat.patterns[0], v, binds, env, at)
+            return True
+        if isinstance(pat, ast.MatchSequence):
+            if isinstance(v, (str, ADict, dict)) or not isinstance(v, (AList, list, tuple)):
+                if isinstance(v, (Sym, ALine)):
+                    self.bad(at, 'sequence pattern on an abstract value')
+                return False
+            items = v.l if isinstance(v, AList) else list(v)
+            star = [i for i, p_ in enumerate(pat.patterns) if isinstance(p_, ast.MatchStar)]
+            if not star:
+                if len(items) != len(pat.patterns):
+                    return False
+                return all(self.match_pattern(p_, x, binds, env, at) for p_, x in zip(pat.patterns, items))
+            k = star[0]
+            before, after = pat.patterns[:k], pat.patterns[k + 1:]
+            if len(items) < len(before) + len(after):
+                return False
+            if not all(self.match_pattern(p_, x, binds, env, at) for p_, x in zip(before, items)):
+                return False
+            tail = items[len(items) - len(after):] if after else []
+            if not all(self.match_pattern(p_, x, binds, env, at) for p_, x in zip(after, tail)):
+                return False
+            if pat.patterns[k].name is not None:
+                binds[pat.patterns[k].name] = AList(items[len(before):len(items) - len(after)])
+            return True
+        if isinstance(pat, ast.MatchMapping):
+            if not isinstance(v, (ADict, dict)):
+                if isinstance(v, (Sym, ALine)):
+                    self.bad(at, 'mapping pattern on an abstract value')
+                return False
+            d = v.d if isinstance(v, ADict) else v
+            keys = [self.eval(k, env) for k in pat.keys]
+            for k, p_ in zip(keys, pat.patterns):
+                if k not in d or not self.match_pattern(p_, d[k], binds, env, at):
+                    return False
+            if pat.rest is not None:
+                binds[pat.rest] = ADict({k: x for k, x in d.items() if k not in keys})
+            return True
+        self.bad(at, f'pattern kind {type(pat).__name__}')
 
     def comp_lazy(self, e, ix, env, first=None):
         if ix == len(e.generators):
@@ -1102,9 +1206,24 @@ class Interp:
         for m in mods:
             node = getattr(m, 'classes', {}).get(cname)
             if node is not None:
-                plain = all(isinstance(b, ast.Name) and b.id == 'object' for b in node.bases) and not cname.endswith(('Error', 'Exception'))
-                return (m, node) if plain else None
+                if cname.endswith(('Error', 'Exception')):
+                    return None
+                bases = [norm(b) for b in node.bases]
+                ok_bases = all(b in ('object', 'NamedTuple', 'typing.NamedTuple') for b in bases)
+                return (m, node) if ok_bases else None
         return None
+
+    @staticmethod
+    def class_kind(node):
+        """'namedtuple' | 'dataclass' | 'frozen-dataclass' | 'plain'"""
+        if any(norm(b) in ('NamedTuple', 'typing.NamedTuple') for b in node.bases):
+            return 'namedtuple'
+        for d in node.decorator_list:
+            t = norm(d.func if isinstance(d, ast.Call) else d)
+            if t in ('dataclass', 'dataclasses.dataclass'):
+                frozen = isinstance(d, ast.Call) and any(k.arg == 'frozen' and isinstance(k.value, ast.Constant) and k.value.value is True for k in d.keywords)
+                return 'frozen-dataclass' if frozen else 'dataclass'
+        return 'plain'
 
     def instantiate(self, cname, args, kwargs, at):
         """an instance of a plain repository class: a heap object whose __init__ is evaluated; None for classes that are modelled otherwise (exceptions, host subclasses)"""
@@ -1113,6 +1232,44 @@ class Interp:
             return None
         m, node = home
         obj = AObj(cname)
+        kind = self.class_kind(node)
+        if node.decorator_list and kind == 'plain':
+            raise Unrecognised(self.rule, f'class {cname} has a decorator that is not modelled', m.rel)
+        if kind != 'plain':
+            # synthesised constructor: the annotated class-level names, in order, with their defaults
+            it = self if m is self.mod else self.sub_interp(m)
+            fields = [(s.target.id, s.value) for s in node.body if isinstance(s, ast.AnnAssign) and isinstance(s.target, ast.Name)]
+            names = [f for f, _d in fields]
+            if len(args) > len(names) or any(k not in names for k in (kwargs or {})):
+                raise RaiseSig('TypeError', (f'{cname}() got unexpected arguments',), at)
+            for i, (f, default) in enumerate(fields):
+                if i < len(args):
+                    obj.attrs[f] = args[i]
+                elif kwargs and f in kwargs:
+                    obj.attrs[f] = kwargs[f]
+                elif default is not None:
+                    if isinstance(default, ast.Call) and norm(default.func) in ('field', 'dataclasses.field'):
+                        fac = next((k.value for k in default.keywords if k.arg == 'default_factory'), None)
+                        dv = next((k.value for k in default.keywords if k.arg == 'default'), None)
+                        if fac is not None:
+                            obj.attrs[f] = it.apply(it.eval(fac, {}), [], at)
+                        elif dv is not None:
+                            obj.attrs[f] = it.eval(dv, {})
+                        else:
+                            raise RaiseSig('TypeError', (f'{cname}() missing argument {f}',), at)
+                    else:
+                        obj.attrs[f] = it.eval(default, {})
+                else:
+                    raise RaiseSig('TypeError', (f'{cname}() missing argument {f}',), at)
+            obj.fields = names
+            obj.frozen = kind in ('namedtuple', 'frozen-dataclass')
+            obj.is_tuple = kind == 'namedtuple'
+            post = m.funcs.get(f'{cname}.__post_init__')
+            if post is not None and kind != 'namedtuple':
+                frozen, obj.frozen = obj.frozen, False
+                it.call_function(post, [obj], at)
+                obj.frozen = frozen
+            return obj
         init = m.funcs.get(f'{cname}.__init__')
         if init is not None:
             it = self if m is self.mod else self.sub_interp(m)
@@ -1635,6 +1792,8 @@ class Interp:
                 return base
             if m in ('startswith', 'endswith'):
                 raise Unrecognised(self.rule, f'text predicate .{m}() on an abstract line', self.mod.rel)
+            if isinstance(base, Sym) and base.kind == 'instance':
+                raise Unrecognised(self.rule, f'method {m}() of an instance of the class {base.args[0]}, which is not modelled', self.mod.rel)
             kw = getattr(self, '_kwargs', None) or {}
             self._kwargs = {}
             if kw:
@@ -1908,6 +2067,28 @@ class Interp:
             if isinstance(obj, Sym) and name == 'getattr' and len(args) > 2:
                 return Sym('attr', obj, attr)          # an opaque host object: whatever it has there is not a repository object
             self.bad(e, f'{name}() of an abstract value {obj!r}')
+        if name == 'issubclass' and len(args) == 2:
+            def cname(v):
+                if isinstance(v, tuple) and len(v) == 2 and v[0] in ('class', 'typeof'):
+                    return v[1]
+                return None
+            a = cname(args[0])
+            bs = [cname(x) for x in (args[1] if isinstance(args[1], tuple) and args[1] and isinstance(args[1][0], tuple) else [args[1]])]
+            if a is None or None in bs:
+                self.bad(e, 'issubclass of values that are not class names')
+            return self.exc_matches(a, bs)
+        if name == 'repr' and len(args) == 1 and (args[0] is None or isinstance(args[0], (int, float, str, bool))):
+            return repr(args[0])
+        if name == 'round' and args and all(isinstance(a, (int, float)) and not isinstance(a, bool) for a in args):
+            try:
+                return round(*args)
+            except (ValueError, OverflowError, TypeError) as exc:
+                raise RaiseSig(type(exc).__name__, (str(exc),), e)
+        if name == 'divmod' and len(args) == 2 and all(isinstance(a, (int, float)) and not isinstance(a, bool) for a in args):
+            try:
+                return tuple(divmod(*args))
+            except ZeroDivisionError as exc:
+                raise RaiseSig('ZeroDivisionError', (str(exc),), e)
         if name == 'super' and not args:
             cur = getattr(self, 'current_self', None)
             if cur is None:
